@@ -4,8 +4,6 @@
 #ifndef C17_LIST_H
 #define C17_LIST_H
 
-#define WF_LIST_FIELDS(l) ((l)->max_size >= 1 && (l)->max_size <= LCAP && (l)->current_size <= (l)->max_size && \
-    (l)->first < (l)->max_size && (l)->last < (l)->max_size && (l)->last == LIST_POS(l, (l)->current_size == (l)->max_size ? 0 : (l)->current_size))
 #define WF_LIST_PRE(l) (__CPROVER_is_fresh((l), sizeof(htp_list_array_t)) && (l)->max_size >= 1 && (l)->max_size <= LCAP && \
     __CPROVER_is_fresh((l)->elements, (l)->max_size * sizeof(void *)) && WF_LIST_FIELDS(l))
 /* growth path: capacity is a per-unit constant LMAX (symbolic-size memcpy does not bit-blast); first/current_size stay symbolic */
